@@ -18,6 +18,7 @@ mod props_adapt;
 mod props_chain;
 mod props_fault;
 mod props_mclmc;
+mod props_posterior;
 mod props_sched;
 mod props_sched_adapt;
 mod sched;
